@@ -30,7 +30,7 @@ CONSTANTS
 DsName == { DsSeq[k] : k \in 1..Len(DsSeq) }
 DsIdx(n) == CHOOSE k \in 1..Len(DsSeq) : DsSeq[k] = n
 ActNames == {"store", "txn", "tick", "create", "delete", "rename", "gc",
-             "restart", "compact", "dup", "read"}
+             "restart", "compact", "dup", "read", "backup", "foreign"}
 
 VARIABLES
   clock,       \* logical time; every write action happens at clock+1
@@ -43,12 +43,13 @@ VARIABLES
   everStored,  \* [Inc -> SUBSET Ent] ids ever stored (items counter, C19)
   metaOf,      \* [DsName -> "none" | "live" | "deleted"] meta-entity state in core.Dataset
   rd,          \* [Readers -> [tok, acc]] reader tokens and accumulated output
+  bk,          \* what the backup location holds: NoBk or the persistent state at the last backup run
   hist         \* action history (hidden by VIEW in exhaustive configs)
 
 vars == <<clock, dsInc, nextInc, deletedInc, purgedInc, feed, nextPos,
-          everStored, metaOf, rd, hist>>
+          everStored, metaOf, rd, bk, hist>>
 view == <<clock, dsInc, nextInc, deletedInc, purgedInc, feed, nextPos,
-          everStored, metaOf, rd>>
+          everStored, metaOf, rd, bk>>
 
 MaxInc == 6
 Inc == 1..MaxInc
@@ -141,6 +142,55 @@ In(o, p, scope, t) ==
             LiveAt(i, s, t) /\ o \in Targets(LatestAtIn(feed[i], s, t), q) }
 
 -----------------------------------------------------------------------------
+(* Observation bundle: the answers required of the read APIs in this state.  *)
+(* Only non-default answers are listed; the harness enumerates the same      *)
+(* query universe from the header and expects the default (empty) answer for *)
+(* every query that is absent.                                               *)
+
+SetToSeq2(S) == SetToSeq(S)
+Scopes == SUBSET DsName
+Instants == IF "past" \in ObsKinds THEN 0..clock ELSE {clock}
+PredsStar == Pred \cup {"*"}
+
+ObsEnt ==
+  [n \in LiveNames |-> SetToSeq2(Entities(n))]
+
+ObsChgOf(n) ==
+  { x \in { [ds |-> n, since |-> s, lim |-> l, lo |-> lo, pg |-> Changes(n, s, l, lo)] :
+             s \in 0..(nextPos[dsInc[n]] + 1), l \in Limits, lo \in BOOLEAN } :
+      x.pg.items # <<>> }
+ObsChg == SetToSeq2(UNION { ObsChgOf(n) : n \in LiveNames })
+
+ObsLook ==
+  SetToSeq2(
+    { x \in { [e |-> e, sc |-> SetToSeq2(sc), t |-> t,
+               del |-> SomeDeleted(e, sc, t),
+               parts |-> SetToSeq2(Partials(e, sc, t))] :
+               e \in Ent, sc \in Scopes, t \in Instants } :
+        x.parts # <<>> \/ x.del })
+
+ObsRel ==
+  SetToSeq2(
+    { x \in { [s |-> s, p |-> p, inv |-> inv, sc |-> SetToSeq2(sc), t |-> t,
+               pairs |-> SetToSeq2(IF inv THEN In(s, p, sc, t) ELSE Out(s, p, sc, t))] :
+               s \in Ent, p \in PredsStar, inv \in BOOLEAN, sc \in Scopes, t \in Instants } :
+        x.pairs # <<>> })
+
+ObsCat ==
+  [n \in { m \in DsName : metaOf[m] # "none" } |->
+     [state |-> metaOf[n],
+      items |-> IF Exists(n) THEN Cardinality(everStored[dsInc[n]]) ELSE -1]]
+
+Obs ==
+  [clock |-> clock,
+   names |-> SetToSeq2(LiveNames),
+   ent  |-> IF "ent" \in ObsKinds THEN ObsEnt ELSE <<>>,
+   chg  |-> IF "chg" \in ObsKinds THEN ObsChg ELSE <<>>,
+   look |-> IF "look" \in ObsKinds THEN ObsLook ELSE <<>>,
+   rel  |-> IF "rel" \in ObsKinds THEN ObsRel ELSE <<>>,
+   cat  |-> IF "cat" \in ObsKinds THEN ObsCat ELSE <<>>]
+
+-----------------------------------------------------------------------------
 (* Actions *)
 
 Batches == UNION { [1..k -> Ent \X CId] : k \in 1..MaxBatch }
@@ -157,7 +207,7 @@ StoreBatch(n, b) ==
         /\ everStored' = [everStored EXCEPT ![i] = @ \cup BatchEnts(b)]
   /\ clock' = clock + 1
   /\ Log([a |-> "store", ds |-> n, b |-> b])
-  /\ UNCHANGED <<dsInc, nextInc, deletedInc, purgedInc, metaOf, rd>>
+  /\ UNCHANGED <<dsInc, nextInc, deletedInc, purgedInc, metaOf, rd, bk>>
 
 \* a transaction writes one element to each of two datasets at one instant
 ExecTxn(n1, x1, n2, x2) ==
@@ -172,14 +222,14 @@ ExecTxn(n1, x1, n2, x2) ==
                                             ![i2] = @ \cup {x2[1]}]
   /\ clock' = clock + 1
   /\ Log([a |-> "txn", m |-> <<<<n1, <<x1>>>>, <<n2, <<x2>>>>>>])
-  /\ UNCHANGED <<dsInc, nextInc, deletedInc, purgedInc, metaOf, rd>>
+  /\ UNCHANGED <<dsInc, nextInc, deletedInc, purgedInc, metaOf, rd, bk>>
 
 Tick ==
   /\ "tick" \in Acts
   /\ clock' = clock + 1
   /\ Log([a |-> "tick"])
   /\ UNCHANGED <<dsInc, nextInc, deletedInc, purgedInc, feed, nextPos,
-                 everStored, metaOf, rd>>
+                 everStored, metaOf, rd, bk>>
 
 CreateDs(n) ==
   /\ "create" \in Acts /\ ~Exists(n) /\ nextInc <= MaxInc
@@ -188,7 +238,7 @@ CreateDs(n) ==
   /\ metaOf' = [metaOf EXCEPT ![n] = "live"]
   /\ clock' = clock + 1
   /\ Log([a |-> "create", ds |-> n])
-  /\ UNCHANGED <<deletedInc, purgedInc, feed, nextPos, everStored, rd>>
+  /\ UNCHANGED <<deletedInc, purgedInc, feed, nextPos, everStored, rd, bk>>
 
 DeleteDs(n) ==
   /\ "delete" \in Acts /\ Exists(n)
@@ -197,7 +247,7 @@ DeleteDs(n) ==
   /\ metaOf' = [metaOf EXCEPT ![n] = "deleted"]
   /\ clock' = clock + 1
   /\ Log([a |-> "delete", ds |-> n])
-  /\ UNCHANGED <<nextInc, purgedInc, feed, nextPos, everStored, rd>>
+  /\ UNCHANGED <<nextInc, purgedInc, feed, nextPos, everStored, rd, bk>>
 
 RenameDs(n, m) ==
   /\ "rename" \in Acts /\ Exists(n) /\ ~Exists(m) /\ n # m
@@ -205,7 +255,7 @@ RenameDs(n, m) ==
   /\ metaOf' = [metaOf EXCEPT ![n] = "deleted", ![m] = "live"]
   /\ clock' = clock + 1
   /\ Log([a |-> "rename", ds |-> n, to |-> m])
-  /\ UNCHANGED <<nextInc, deletedInc, purgedInc, feed, nextPos, everStored, rd>>
+  /\ UNCHANGED <<nextInc, deletedInc, purgedInc, feed, nextPos, everStored, rd, bk>>
 
 \* garbage collection physically removes deleted incarnations: unobservable
 GC ==
@@ -213,7 +263,7 @@ GC ==
   /\ purgedInc' = deletedInc
   /\ Log([a |-> "gc"])
   /\ UNCHANGED <<clock, dsInc, nextInc, deletedInc, feed, nextPos, everStored,
-                 metaOf, rd>>
+                 metaOf, rd, bk>>
 
 \* stop + start at a quiescent point: unobservable (C14)
 Restart ==
@@ -222,7 +272,7 @@ Restart ==
   /\ IF hist = <<>> THEN FALSE ELSE hist[Len(hist)].a # "restart"
   /\ Log([a |-> "restart"])
   /\ UNCHANGED <<clock, dsInc, nextInc, deletedInc, purgedInc, feed, nextPos,
-                 everStored, metaOf, rd>>
+                 everStored, metaOf, rd, bk>>
 
 \* a "legacy duplicate": a version identical to its immediate predecessor, as
 \* older hub versions wrote them (C12's quantifier).  Realised in the harness
@@ -239,7 +289,7 @@ InjectDup(n, e) ==
         /\ nextPos' = [nextPos EXCEPT ![i] = @ + 2]
         /\ Log([a |-> "dup", ds |-> n, e |-> e, via |-> OtherContent(c)])
   /\ clock' = clock + 2
-  /\ UNCHANGED <<dsInc, nextInc, deletedInc, purgedInc, everStored, metaOf, rd>>
+  /\ UNCHANGED <<dsInc, nextInc, deletedInc, purgedInc, everStored, metaOf, rd, bk>>
 
 \* deduplicating compaction: drop every entry equal to its immediate
 \* predecessor of the same entity; nothing else changes (C12)
@@ -253,7 +303,7 @@ Compact(n) ==
   /\ feed' = [feed EXCEPT ![dsInc[n]] = Dedup(@, <<>>)]
   /\ Log([a |-> "compact", ds |-> n])
   /\ UNCHANGED <<clock, dsInc, nextInc, deletedInc, purgedInc, nextPos,
-                 everStored, metaOf, rd>>
+                 everStored, metaOf, rd, bk>>
 
 \* a token-carrying reader takes one page of its dataset's feed
 ReadPage(r) ==
@@ -262,7 +312,30 @@ ReadPage(r) ==
      IN /\ rd' = [rd EXCEPT ![r] = [tok |-> pg.next, acc |-> @.acc \o pg.items]]
         /\ Log([a |-> "read", r |-> r, since |-> rd[r].tok, page |-> pg])
   /\ UNCHANGED <<clock, dsInc, nextInc, deletedInc, purgedInc, feed, nextPos,
-                 everStored, metaOf>>
+                 everStored, metaOf, bk>>
+
+NoBk == [taken |-> FALSE]
+
+\* C20: a backup run makes the backup location hold everything committed so far; restoring it
+\* into an empty store must answer every read API as the hub did at that moment.  The required
+\* answers (Obs of this state) are logged with the step; the harness restores the location at
+\* the end of the behaviour and compares the restored hub with them.
+Backup ==
+  /\ "backup" \in Acts
+  /\ hist # <<>>
+  /\ IF hist = <<>> THEN FALSE ELSE hist[Len(hist)].a # "backup"
+  /\ bk' = [taken |-> TRUE, runs |-> (IF bk.taken THEN bk.runs + 1 ELSE 1), foreign |-> FALSE,
+            clock |-> clock, dsInc |-> dsInc, deletedInc |-> deletedInc, feed |-> feed]
+  /\ Log([a |-> "backup", obs |-> Obs])
+  /\ UNCHANGED <<clock, dsInc, nextInc, deletedInc, purgedInc, feed, nextPos, everStored, metaOf, rd>>
+
+\* a different store tries to back up into this location: must be refused, location untouched
+ForeignBackup ==
+  /\ "foreign" \in Acts /\ bk.taken
+  /\ IF bk.taken THEN ~bk.foreign ELSE FALSE
+  /\ bk' = [bk EXCEPT !.foreign = TRUE]
+  /\ Log([a |-> "foreign"])
+  /\ UNCHANGED <<clock, dsInc, nextInc, deletedInc, purgedInc, feed, nextPos, everStored, metaOf, rd>>
 
 Init ==
   /\ clock = 0
@@ -274,6 +347,7 @@ Init ==
   /\ everStored = [i \in Inc |-> {}]
   /\ metaOf = [n \in DsName |-> "none"]
   /\ rd = [r \in Readers |-> [tok |-> 0, acc |-> <<>>]]
+  /\ bk = NoBk
   /\ hist = <<>>
 
 \* all datasets of DsName pre-created (configs without management actions)
@@ -287,6 +361,7 @@ InitCreated ==
   /\ everStored = [i \in Inc |-> {}]
   /\ metaOf = [n \in DsName |-> "live"]
   /\ rd = [r \in Readers |-> [tok |-> 0, acc |-> <<>>]]
+  /\ bk = NoBk
   /\ hist = <<>>
 
 Next ==
@@ -297,7 +372,7 @@ Next ==
      \/ \E n \in DsName : CreateDs(n) \/ DeleteDs(n) \/ Compact(n)
      \/ \E n, m \in DsName : RenameDs(n, m)
      \/ \E n \in DsName, e \in Ent : InjectDup(n, e)
-     \/ GC \/ Restart
+     \/ GC \/ Restart \/ Backup \/ ForeignBackup
      \/ \E r \in Readers : ReadPage(r)
 
 Spec == Init /\ [][Next]_vars
@@ -317,7 +392,9 @@ KindsNow ==
       \/ k = "tick"
       \/ k = "read" /\ Readers # {}
       \/ k = "gc" /\ purgedInc # deletedInc
-      \/ k = "restart" /\ hist # <<>> }
+      \/ k = "restart" /\ hist # <<>>
+      \/ k = "backup" /\ hist # <<>>
+      \/ k = "foreign" /\ bk.taken }
 NextSample ==
   /\ Steps < MaxSteps
   /\ KindsNow # {}
@@ -336,6 +413,8 @@ NextSample ==
         \/ kind = "read" /\ \E r \in RE(Readers) : ReadPage(r)
         \/ kind = "gc" /\ GC
         \/ kind = "restart" /\ Restart
+        \/ kind = "backup" /\ Backup
+        \/ kind = "foreign" /\ ForeignBackup
 SpecSample == Init /\ [][NextSample]_vars
 SpecCreatedSample == InitCreated /\ [][NextSample]_vars
 
@@ -439,55 +518,6 @@ OthersUnaffected == [][OthersUnaffectedStep]_vars
 \* C19: catalogue agreement
 CatalogueAgrees ==
   \A n \in DsName : (metaOf[n] = "live") <=> Exists(n)
-
------------------------------------------------------------------------------
-(* Observation bundle: the answers required of the read APIs in this state.  *)
-(* Only non-default answers are listed; the harness enumerates the same      *)
-(* query universe from the header and expects the default (empty) answer for *)
-(* every query that is absent.                                               *)
-
-SetToSeq2(S) == SetToSeq(S)
-Scopes == SUBSET DsName
-Instants == IF "past" \in ObsKinds THEN 0..clock ELSE {clock}
-PredsStar == Pred \cup {"*"}
-
-ObsEnt ==
-  [n \in LiveNames |-> SetToSeq2(Entities(n))]
-
-ObsChgOf(n) ==
-  { x \in { [ds |-> n, since |-> s, lim |-> l, lo |-> lo, pg |-> Changes(n, s, l, lo)] :
-             s \in 0..(nextPos[dsInc[n]] + 1), l \in Limits, lo \in BOOLEAN } :
-      x.pg.items # <<>> }
-ObsChg == SetToSeq2(UNION { ObsChgOf(n) : n \in LiveNames })
-
-ObsLook ==
-  SetToSeq2(
-    { x \in { [e |-> e, sc |-> SetToSeq2(sc), t |-> t,
-               del |-> SomeDeleted(e, sc, t),
-               parts |-> SetToSeq2(Partials(e, sc, t))] :
-               e \in Ent, sc \in Scopes, t \in Instants } :
-        x.parts # <<>> \/ x.del })
-
-ObsRel ==
-  SetToSeq2(
-    { x \in { [s |-> s, p |-> p, inv |-> inv, sc |-> SetToSeq2(sc), t |-> t,
-               pairs |-> SetToSeq2(IF inv THEN In(s, p, sc, t) ELSE Out(s, p, sc, t))] :
-               s \in Ent, p \in PredsStar, inv \in BOOLEAN, sc \in Scopes, t \in Instants } :
-        x.pairs # <<>> })
-
-ObsCat ==
-  [n \in { m \in DsName : metaOf[m] # "none" } |->
-     [state |-> metaOf[n],
-      items |-> IF Exists(n) THEN Cardinality(everStored[dsInc[n]]) ELSE -1]]
-
-Obs ==
-  [clock |-> clock,
-   names |-> SetToSeq2(LiveNames),
-   ent  |-> IF "ent" \in ObsKinds THEN ObsEnt ELSE <<>>,
-   chg  |-> IF "chg" \in ObsKinds THEN ObsChg ELSE <<>>,
-   look |-> IF "look" \in ObsKinds THEN ObsLook ELSE <<>>,
-   rel  |-> IF "rel" \in ObsKinds THEN ObsRel ELSE <<>>,
-   cat  |-> IF "cat" \in ObsKinds THEN ObsCat ELSE <<>>]
 
 Emit == PrintT(<<"TRACE", ToJson([steps |-> hist, obs |-> Obs])>>)
 
